@@ -62,9 +62,15 @@ void check_consistency(const ConsistencyInput& in, int op_index, std::vector<Vio
         bool ok = (p.vcols == want);
         if (ok && want > 0)
         {
-            const size_t per_col = s.vcols > 0 ? s.vec_bytes.size() / (size_t) s.vcols : 0;
-            ok = p.vrows == s.vrows && p.vec_bytes.size() == per_col * (size_t) want &&
-                std::equal(p.vec_bytes.begin(), p.vec_bytes.end(), s.vec_bytes.begin());
+            // same columns up to rounding: the product V*y is evaluated with a different number of columns, so
+            // the low bits may differ (bitwise equality would demand more than the statement)
+            ok = p.vrows == s.vrows && p.vecs.rows() == s.vecs.rows();
+            if (ok)
+            {
+                const ld scale = std::max<ld>(s.vecs.cwiseAbs().maxCoeff(), 1e-300L);
+                const ld diff = (p.vecs - s.vecs.leftCols(want)).cwiseAbs().maxCoeff();
+                ok = diff <= 256 * (ld) std::max<long>(s.vrows, 1) * in.eps * scale;
+            }
         }
         if (!ok)
             add(out, op_index, "nvec-prefix", fmt("eigenvectors(%ld) has %ld columns / differs from the first %ld columns of eigenvectors() (%ld columns)", in.partial_m, p.vcols, want, s.vcols));
@@ -88,7 +94,7 @@ void check_consistency(const ConsistencyInput& in, int op_index, std::vector<Vio
         if (in.family == F_GENCSHIFT)
             ok = diff >= 0 && diff % 2 == 0 && diff <= 2 * (long) in.nev * in.computes_since_init;
         if (!ok)
-            add(out, op_index, "num-operations", fmt("num_operations()=%ld but the operator was applied %ld times since init()", s.nops, in.seam_applications_since_init));
+            add(out, op_index, "num-operations", fmt("num_operations()=%ld but the operator was applied %ld times since init() (%ld compute() calls since init, nev=%d)", s.nops, in.seam_applications_since_init, in.computes_since_init, in.nev));
     }
     // at most maxit restarts
     if (in.restarts_in_call > std::max<long>(in.maxit, 0))
